@@ -829,6 +829,44 @@ example (m n : Nat) (cfg' : Cfg) (hcfg' : cfg'.Valid) :
     (demoOps.take m) hok (idsOK_of_freshIds "d" demoCfg (by decide) _ hok hfr) _ d _ hcr
   exact ⟨s', db', j, h1, h2, h3, h4⟩
 
+/-- a history that leaves an uncommitted `Sync` batch with one staged record -/
+def syncPre : List AOp := [.bnew true 5, .bput (K "a") (K "1")]
+
+/-- `C04_history_sync_durable` is not vacuous: its hypotheses hold for `syncPre`, every loss `n` -/
+example (n : Nat) (cfg' : Cfg) (hcfg' : cfg'.Valid) :
+    ∃ s' db', openDB (crashOf (arun (openDB St.init "d" demoCfg).1 (syncPre ++ [.bcommit])) "d" n) "d" cfg' = (s', .ok) ∧
+      s'.db = some db' ∧
+      ∀ k, absGet s' db' k = specOfUnits (unitsOf (openDB St.init "d" demoCfg).1 (syncPre ++ [.bcommit])) k := by
+  have hb : ∃ b, batchOf (arun (openDB St.init "d" demoCfg).1 syncPre) = some b ∧ b.sync = true ∧
+      b.committed = false ∧ b.staged ≠ [] := by
+    rw [openDB_fresh "d" demoCfg (by decide)]
+    exact ⟨_, rfl, rfl, rfl, by decide⟩
+  obtain ⟨b, hb1, hb2, hb3, hb4⟩ := hb
+  have hok : ∀ op ∈ syncPre ++ [.bcommit], AOpOK op := by decide
+  have hfr : FreshIds (syncPre ++ [.bcommit]) := by decide
+  obtain ⟨d, hcr⟩ := C03_history_applicable "d" demoCfg (by decide) (syncPre ++ [.bcommit]) n
+  exact (C04_history_sync_durable "d" demoCfg cfg' (by decide) hcfg' syncPre b hb1 hb2 hb3 hb4 hok
+    (idsOK_of_freshIds "d" demoCfg (by decide) _ hok hfr) _ d _ hcr).2
+
+/-- `C03_history_before_sync` is not vacuous: `Put a`, `Sync()`, then the whole demo history; for
+    every loss `n` at least the one unit acknowledged before the `Sync()` survives -/
+example (n : Nat) (cfg' : Cfg) (hcfg' : cfg'.Valid) :
+    ∃ s' db' j, openDB (crashOf (arun (openDB St.init "d" demoCfg).1
+        (([.put (K "a") (K "0")] ++ [.sync]) ++ demoOps)) "d" n) "d" cfg' = (s', .ok) ∧ s'.db = some db' ∧
+      1 ≤ j := by
+  have hok : ∀ op ∈ ([AOp.put (K "a") (K "0")] ++ [.sync]) ++ demoOps, AOpOK op := by decide
+  have hfr : FreshIds (([AOp.put (K "a") (K "0")] ++ [.sync]) ++ demoOps) := by decide
+  obtain ⟨d, hcr⟩ := C03_history_applicable "d" demoCfg (by decide)
+    (([AOp.put (K "a") (K "0")] ++ [.sync]) ++ demoOps) n
+  obtain ⟨s', db', j, h1, h2, h3, _⟩ := C03_history_before_sync "d" demoCfg cfg' (by decide) hcfg'
+    [.put (K "a") (K "0")] demoOps hok (idsOK_of_freshIds "d" demoCfg (by decide) _ hok hfr) _ d _ hcr
+  refine ⟨s', db', j, h1, h2, Nat.le_trans ?_ h3⟩
+  have : unitsOf (openDB St.init "d" demoCfg).1 [.put (K "a") (K "0")] = [MUnit.put (K "a") (K "0")] := by
+    rw [openDB_fresh "d" demoCfg (by decide)]
+    rfl
+  rw [this]
+  exact Nat.le_refl _
+
 /-- a second history, with a new batch id -/
 def demoOps2 : List AOp :=
   [.put (K "z") (K "Z"), .bnew true 78, .bput (K "a") (K "9"), .bdel (K "x"), .bcommit, .del (K "z")]
